@@ -196,7 +196,9 @@ class SsbScriptCompilerListener(SsbScriptListener):
 
     def exitPos_argument(self, ctx: SsbScriptParser.Pos_argumentContext) -> None:
         self._is_processing_argument = False
-        self._turn_next_op_into_label_jump_for = None
+        if self._turn_next_op_into_label_jump_for is not None:
+            # The jump target is always the last parameter of an operation, a marker before that would be lost.
+            raise SsbCompilerError(_("A jump marker must be the last argument of an operation."))
         if self._argument_type == ListenerArgType.JUMP:
             label_name = self._argument_value
             assert isinstance(label_name, str)
